@@ -80,11 +80,27 @@ def c06_first_diff(a, b):
     return c06.first_diff(a, b)
 
 
+def first_argmax_labels(mod, Xq):
+    """for each row the OLDEST category of maximal activation, from the module's own category_choice
+    (carried through the cluster map for DualVigilanceART); None when the module has no such interface"""
+    base = getattr(mod, "base_module", None)
+    m = base if (base is not None and type(mod).__name__ == "DualVigilanceART") else mod
+    if not hasattr(m, "category_choice") or not hasattr(m, "W") or len(m.W) == 0:
+        return None
+    out = []
+    for x in np.asarray(Xq, dtype=float):
+        T = [float(m.category_choice(x, w, params=m.params)[0]) for w in m.W]
+        c = int(np.argmax(T))
+        out.append(int(mod.map[c]) if m is not mod else c)
+    return out
+
+
 def zoo_oracle(rng, n):
     """compound estimators: purity, permutation/batching invariance, range (through the label maps)"""
     fails, cnt = [], 0
     for _ in range(n):
-        name = rng.choice(["Fusion", "DualVigilance", "Topo", "CVIART", "iCVIFuzzy", "SimpleARTMAP", "ARTMAP", "DeepSup", "DeepUnsup", "SMART"])
+        name = rng.choice(["Fusion", "DualVigilance", "Topo", "CVIART", "iCVIFuzzy", "SimpleARTMAP", "ARTMAP", "DeepSup", "DeepUnsup", "SMART",
+                           "SAM_Fusion", "SAM_DV", "SAM_Fusion", "Fusion"])
         z, X, y, ops, mode, eps = zoo.gen_zoo_history(rng, name)
         est = z["est"]
         try:
@@ -135,6 +151,20 @@ def zoo_oracle(rng, n):
                         break
             except KeyError as e:
                 fails.append(rep(f"a predicted label is not a key of the layer map above it ({e})", "carried"))
+        # each row receives the oldest category of maximal activation (through the estimator's label map)
+        try:
+            if name in ("Fusion", "DualVigilance"):
+                want = first_argmax_labels(est, Q)
+                if want is not None and [int(v) for v in outs[0]] != want:
+                    fails.append(rep(f"predict {[int(v) for v in outs[0]]} is not the oldest arg-max of activation {want}", "argmax"))
+            elif name in ("SimpleARTMAP", "SAM_Fusion", "SAM_DV"):
+                wa = first_argmax_labels(est.module_a, Q)
+                if wa is not None:
+                    want = [int(est.map[a]) for a in wa]
+                    if [int(v) for v in outs[0]] != want:
+                        fails.append(rep(f"predict {[int(v) for v in outs[0]]} is not the map of the oldest arg-max of the A-side activation {want}", "argmax"))
+        except Exception:
+            pass
         # range: labels seen in training
         if name in ("SimpleARTMAP",):
             if not set(int(v) for v in outs[0]) <= set(int(v) for v in np.asarray(y)):
@@ -152,7 +182,7 @@ def main():
                      "models trained by random histories, queried with batches containing training rows, duplicates and new rows; "
                      "non-trivial = distinct history reaching >= 2 categories",
                      ["valid query batches only (invalid ones are C18's business)"])
-    zf, zn = zoo_oracle(C.make_rng(seed, "C08-zoo"), 150 if tier == "quick" else 1500)
+    zf, zn = zoo_oracle(C.make_rng(seed, "C08-zoo"), 300 if tier == "quick" else 3000)
     for f in zf:
         kf = C.match_known("C08", f["signature"])
         if kf is not None:
